@@ -159,6 +159,20 @@ func genKCase(rng interface{ IntN(int) int }, opts map[string]bool) *kcase {
 				kh.Binds[bi].Include = []string{other}
 			}
 		}
+		if opts["group-with-include"] && len(kc.Hooks)%2 == 0 {
+			// a grouped binding that also lists bindings outside its group: the keys of its snapshots are the union
+			// (no draw from rng: the other monitors that share this generator keep their case streams)
+			for bi := range kh.Binds {
+				if kh.Binds[bi].Group == "" {
+					continue
+				}
+				for _, o := range kh.Binds {
+					if o.Group != kh.Binds[bi].Group && len(kh.Binds[bi].Include) < 2 {
+						kh.Binds[bi].Include = append(kh.Binds[bi].Include, o.Name)
+					}
+				}
+			}
+		}
 		if rng.IntN(5) == 0 {
 			kh.SyncFail = 1 + rng.IntN(2)
 		}
